@@ -92,7 +92,7 @@ def check(ctx, pid="C10"):
     K, D = (3, 4) if q else (5, 5)
     profs = profiles(ctx.tier)
     hists = histories(ctx, K, D)
-    sim = histories(ctx, K + 2, 8, simulate=300 if q else 4000, seed=ctx.seed)
+    sim = histories(ctx, K + 2, 8, simulate=40 if q else 500, seed=ctx.seed)
     traces = replay_all(profs, hists, 4) + replay_all(profs, sorted(set(sim)), 6)
     verdicts = fw.validate(ctx, traces, module="TraceClient")
     viols = []
